@@ -311,8 +311,16 @@ func addArFile(w *ar.Writer, name string, body []byte, date time.Time) error {
 	if err := w.WriteHeader(&header); err != nil {
 		return fmt.Errorf("cannot write file header: %w", err)
 	}
-	_, err := w.Write(body)
-	return err
+	n, err := w.Write(body)
+	if err != nil {
+		return err
+	}
+	// ar.Writer pads odd sized members with a newline and drops the error of
+	// that write: only the byte count tells whether the padding got through
+	if len(body)%2 == 1 && n != len(body)+1 {
+		return fmt.Errorf("cannot write padding of %s: %w", name, io.ErrShortWrite)
+	}
+	return nil
 }
 
 type nopCloser struct {
